@@ -54,6 +54,7 @@ void __vp_obs_file(const char* name) noexcept {
 }
 void __vp_reached(const char* t) noexcept { printf("#reached %s\n", t); }
 void __vp_program(int) noexcept {}
+void __vp_sym_reset() noexcept { R().cnt.clear(); }
 }
 #ifndef VP_MAIN
 #define VP_MAIN vp_main
